@@ -214,9 +214,11 @@ func C01(c *Ctx) {
 	c.R.Rule("C01-R8", "E3+E5", "a pattern of one kind (map, array, number, boolean) is only matched by a message part of the same kind", 4)
 	c.R.Rule("C01-R9", "E3", "the variable predicates mean what the documentation says", 2)
 	c.shareRule("C03", "C03-R1", "C01-R11", "an answer is about the pattern and message of this call: the matcher keeps nothing between calls (a memo answers for another pattern)")
+	c.R.Rule("C01-R12", "E5+E3", "a pattern string is compared with a message string only once it is known to be a constant", 1)
 	c.R.Rule("C01-R10", "E3+E5", "a pattern array's variable and constants are what getVariable found, and a variable is matched by arraycatMatch before the array case succeeds", 4)
 	c01ArrayVariable(c, "C01-R10")
 	m := c.newMatchModel()
+	c01ConstantCompare(c, "C01-R12", m)
 	for _, f := range m.fns {
 		c.R.Fn(fname(f))
 	}
@@ -660,6 +662,9 @@ func C02(c *Ctx) {
 	c.R.Rule("C02-R6", "E1", "matching leaves the pattern and the message intact (a modified pattern loses solutions on its next use)", 8)
 	m := c.newMatchModel()
 	c.R.Rule("C02-R11", "E5+E3", "whether matching fails with an error depends on the pattern alone", 4)
+	c.R.Rule("C02-R14", "E5", "every matching step inside the matcher continues from the candidate bindings", 1)
+	c.R.Rule("C02-R15", "E7", "values and binding sets are never identified by their printed or encoded form", 1)
+	c02CandidateBindings(c, "C02-R14", "C02-R15", m)
 	c02ErrorOrigins(c, "C02-R11", m)
 	for _, f := range m.fns {
 		c.R.Fn(fname(f))
